@@ -376,8 +376,13 @@ def run(ck):
     ck.note("fingerprints", {fn: fingerprint(src, fn) for fn in FINGERPRINTS})
     ck.note("fingerprint_changed", changed)
     ck.proofs(["XmpProps.C13"], required=REQUIRED, drivers=["drv_c13"])
-    run_downmix(ck, mc["values"], 3 if changed else 1)
-    run_timeline(ck)
+    try:
+        run_downmix(ck, mc["values"], 3 if changed else 1)
+        run_timeline(ck)
+    except FileNotFoundError as e:
+        # the shared build cache drops the directory of an older tree hash as soon as another check
+        # builds a newer one: the libxmp tree changed while this run was in progress
+        raise vlib.InfraError("build cache entry vanished during the run (libxmp tree changed meanwhile); re-run: %s" % e)
     ck.cov["rule"] = ("evaluations = accumulator values fed to both downmix functions in all 16 amp/width/sign combinations, plus "
                       "frames x 11 contexts of the lockstep renders; distinct cases = downmix blocks (boundary list or PRNG block "
                       "(seed,count,shift)) and timeline cases (module, case seed); a timeline case is non-trivial when the reference "
